@@ -10,9 +10,7 @@ open Mimium.CstPrint (Ctx IsTok IsNode SepTail ItemOk itemRun ListShape ListBody
 variable {E : Env} {c : Ctx} {rec : Tag → St → St}
 
 /-- the node kinds for which the shape theorem is proved: all but these six -/
-def cov : SK → Bool
-  | .ParamList | .LambdaExpr | .RecordExpr | .MacroExpansion | .TupleType | .RecordType => false
-  | _ => true
+abbrev cov : SK → Bool := CstPrint.covered
 
 /-- what the infix loops need on entry: the last child is a node and starts at the marker -/
 def Pre (t : Tag) (s : St) : Prop :=
